@@ -12,11 +12,11 @@ def conds(tier):
                     family="F-CTX three pending overriders of one scoped value", encodes=ctx.ENC_CTX))
     out.append(Cond("over2n", ctx.mk_over3(P, 2, nested=True), ctx.over_params(2), pin=2, budget=200,
                     family="F-CTX nested overriding tasks", encodes=ctx.ENC_CTX))
-    out.append(Cond("ctx2", ctx.mk_ctx2(P, 2, (0, 1, 2), (1, 2, 4, 5), 4), ctx.ctx2_params(2, 3, 4, 4), pin=3,
+    out.append(Cond("ctx2", ctx.mk_ctx2(P, 2, (0, 1, 6, 8), (1, 4, 5, 7, 8, 9), 4), ctx.ctx2_params(2, 4, 6, 4), pin=3,
                     budget=200, family="F-CTX sv/attr overrides, exits", encodes=ctx.ENC_CTX))
     if not q:
         out.append(Cond("over4", ctx.mk_over3(P, 4), ctx.over_params(4), pin=4, budget=900,
                         family="F-CTX four pending overriders", encodes=ctx.ENC_CTX))
-        out.append(Cond("ctx3", ctx.mk_ctx2(P, 3, (0, 1, 2, 3, 4), (1, 2, 4, 5), 5), ctx.ctx2_params(3, 5, 4, 5), pin=3,
+        out.append(Cond("ctx3", ctx.mk_ctx2(P, 3, (0, 1, 2, 4, 6, 8), (1, 2, 4, 5, 7, 8, 9), 5), ctx.ctx2_params(3, 6, 7, 5), pin=3,
                         budget=1800, family="F-CTX three steps", encodes=ctx.ENC_CTX))
     return out
